@@ -20,7 +20,15 @@ func init() {
 // outcome: success, failure, rejection, timeout, cancellation at every step)
 // and, for the growth oracle, repeats an execution many times.
 func genC19(r *Rnd, t Tier) *Case {
-	switch r.Intn(10) {
+	switch r.Intn(13) {
+	case 10, 11, 12:
+		c := genC18(r, t)
+		c.Sc.Family = "c19adapter"
+		if r.P(0.3) {
+			c.Sc.Adapter.Repeat = 20
+			c.Sc.Adapter.CancelAt = 0
+		}
+		return c
 	case 0, 1, 2:
 		c := genC08(r, t)
 		return c
@@ -118,7 +126,33 @@ func checkC19(c *checkCtx) {
 			c.fail("C19.lingering", "waited-in:"+where, fmt.Sprintf("library goroutines kept running until %v after the last execution returned although user code ran for only %v of that time", late, userTail))
 		}
 	}
-	if res.Sc.Family == "c19rep" {
+	// (e) HTTP: responses the adapter obtained but did not hand to the caller are closed
+	if a := res.Sc.Adapter; a != nil && a.Proto == "http" && res.AW != nil {
+		c.cov("c19.http_runs")
+		returned := map[int]bool{}
+		for i := range res.Log.Ev {
+			e := &res.Log.Ev[i]
+			if e.Kind == EvAdapter && e.L == AdReturn && e.A >= 0 {
+				returned[int(e.B)] = true
+			}
+		}
+		for _, b := range res.AW.bodies {
+			if !returned[b.attempt] {
+				c.cov("c19.http_discarded_responses")
+				if b.closed == 0 {
+					why := "retried"
+					for _, p := range a.Policies {
+						if p.Kind == "hedge" {
+							why = "retried or losing"
+						}
+					}
+					c.fail("C19.http-body", "unclosed", fmt.Sprintf("the response of attempt %d (%s, not returned to the caller) was never closed: its connection is not released", b.attempt, why))
+					break
+				}
+			}
+		}
+	}
+	if res.Sc.Family == "c19rep" || (res.Sc.Adapter != nil && res.Sc.Adapter.Repeat > 1) {
 		c.cov("c19.repetition_runs")
 	}
 }
